@@ -9,7 +9,7 @@ held node, and the key set of the registry) taken before the call must equal the
 from __future__ import annotations
 
 from . import c18
-from .c18 import impl, nontrivial as _nt, spec_violation  # noqa: F401
+from .c18 import flaky, impl, nontrivial as _nt, spec_violation  # noqa: F401
 from ..lib.term import Con
 
 ID = "C19"
